@@ -139,57 +139,3 @@ theorem uniqueInputFieldNames_iff (s : Schema) (d : QueryDoc) (evs : List Event)
   · exact uniqueInputFieldNames_sound s d evs hw
 
 end Gql.Validate
-
-section C08
-open Gql Gql.Validate Gql.Validate.Rules
-
-/-- §5.6.3 — UniqueInputFieldNames reports nothing iff the fields of every input object literal of
-    the document have different names (documents whose values have the parser's shape: only list
-    and object literals have children) -/
-theorem C08_UniqueInputFieldNames (s : Schema) (d : QueryDoc) (hsh : valuesShaped s d = true) :
-    validate [uniqueInputFieldNames] s d = .ok [] ↔ Spec.inputObjectFieldUniqueness s d = true := by
-  obtain ⟨evs, hw⟩ := walkDoc_isSome s.view d
-  unfold uniqueInputFieldNames
-  rw [validate_stateless_nil s d _ _ evs hw]
-  exact uniqueInputFieldNames_iff s d evs hw hsh
-
-/-- without the shape hypothesis: the specification predicate makes the rule silent -/
-theorem C08_UniqueInputFieldNames_sound (s : Schema) (d : QueryDoc) (h : Spec.inputObjectFieldUniqueness s d = true) : validate [uniqueInputFieldNames] s d = .ok [] := by
-  obtain ⟨evs, hw⟩ := walkDoc_isSome s.view d
-  unfold uniqueInputFieldNames
-  rw [validate_stateless_nil s d _ _ evs hw]
-  exact uniqueInputFieldNames_sound s d evs hw h
-
-/- The shape hypothesis.  `{ f(a: <v>) }` on the empty schema: -/
-namespace InputFieldsWitness
-def doc (v : Value) : QueryDoc :=
-  { ops := [{ op := opQuery, name := [], vars := [], dirs := [],
-              sel := .cons (.field [] (str "f") [⟨str "a", v, Pos.zero⟩] [] .nil Pos.zero) .nil, pos := Pos.zero }],
-    frags := [] }
-def int1 : Value := .mk .int (str "1") .nil Pos.zero
-/-- `{x: 1, x: 1}` -/
-def dupObj : Value := .mk .object [] (.cons (str "x") int1 Pos.zero (.cons (str "x") int1 Pos.zero .nil)) Pos.zero
-/-- `[{x: 1, x: 1}]` -/
-def dupInList : Value := .mk .list [] (.cons [] dupObj Pos.zero .nil) Pos.zero
-/-- not a value the parser builds: an Int literal that has `{x: 1, x: 1}` as a child -/
-def dupBelowInt : Value := .mk .int (str "1") (.cons [] dupObj Pos.zero .nil) Pos.zero
-end InputFieldsWitness
-
-open InputFieldsWitness in
-/-- the shape hypothesis is satisfiable on documents with (nested, duplicate) object literals, and
-    both sides of the equivalence reject there -/
-example : valuesShaped Schema.empty (doc dupInList) = true ∧
-    Spec.inputObjectFieldUniqueness Schema.empty (doc dupInList) = false ∧
-    validate [uniqueInputFieldNames] Schema.empty (doc dupInList) ≠ .ok [] := by decide
-
-open InputFieldsWitness in
-/-- without it the equivalence fails: the walker (like the Go walker) does not descend below a
-    value that is neither a list nor an object, the specification predicate does -/
-example : valuesShaped Schema.empty (doc dupBelowInt) = false ∧
-    validate [uniqueInputFieldNames] Schema.empty (doc dupBelowInt) = .ok [] ∧
-    Spec.inputObjectFieldUniqueness Schema.empty (doc dupBelowInt) = false := by decide
-
-#print axioms C08_UniqueInputFieldNames
-#print axioms C08_UniqueInputFieldNames_sound
-
-end C08
